@@ -246,3 +246,38 @@ Fixpoint hsum (l : list hint) : nat := match l with [] => 0 | x :: r => hsize x 
 (* ---- observation encoders (for the correspondence check) --------------------------- *)
 Definition obs_ob (o : option bool) : obs :=
   match o with None => OS "RecursionError" | Some b => ob b end.
+
+(* ---- well-formed hints: the fragment the soundness/reflexivity theorems range over ---- *)
+Definition is_ann (h : hint) : bool := match h with HAnn _ => true | _ => false end.
+
+(* classes, both spellings of unions, Literal, Annotated (not nested: Python flattens),
+   list/set/dict/fixed-length tuple/type generics.  Variadic tuples and Callable are
+   covered by the correspondence check and the oracle only (DESIGN C04). *)
+Fixpoint wf (h : hint) : bool :=
+  let fix all (l : list hint) : bool := match l with [] => true | x :: r => wf x && all r end in
+  match h with
+  | HCls c => negb (cls_eqb c CallableC)
+  | HNew l | HOld l => all l
+  | HLit l => negb (existsb (fun v => match v with LEllipsis => true | _ => false end) l)
+  | HAnn x => wf x && negb (is_ann x)
+  | HGen ListC [a] | HGen SetC [a] => wf a
+  | HGen DictC [k; v] => wf k && wf v
+  | HGen TupleC l => all l
+  | HGen TypeC [HCls c] => negb (cls_eqb c CallableC)
+  | _ => false
+  end.
+
+Fixpoint wf_all (l : list hint) : bool := match l with [] => true | x :: r => wf x && wf_all r end.
+
+(* no tuple[()] anywhere (known finding S3) *)
+Fixpoint no_empty_tuple (h : hint) : bool :=
+  let fix all (l : list hint) : bool := match l with [] => true | x :: r => no_empty_tuple x && all r end in
+  match h with
+  | HPar l | HNew l | HOld l => all l
+  | HAnn x => no_empty_tuple x
+  | HGen TupleC [] => false
+  | HGen _ l => all l
+  | _ => true
+  end.
+
+Fixpoint net_all (l : list hint) : bool := match l with [] => true | x :: r => no_empty_tuple x && net_all r end.
